@@ -138,7 +138,7 @@ def _cmp_cond(cond):
 def s3(ctx):
     crate = ctx.lib()
     sites = reason_sites(crate)
-    ctx.floor("StopReason constructions", len(sites), 8)
+    ctx.floor("StopReason constructions", len(sites), 5)
     seen = set()
     for root, b, bi, s, variant, rv in sites:
         key = "%s:%s" % (C.fkey(root), variant)
